@@ -669,5 +669,195 @@ theorem parseFile_serialize {ver : String} (hv : PlainVer ver) (m : Map Val) (hn
   · simp [s9, s8, s7, s6, s5, s4, s3, s2, s1, s0, hU, Secs.put, Secs.sel, parseMeta, hm, h2]
   · simp [s9, s8, s7, s6, s5, s4, s3, s2, s1, s0, hU, Secs.put, Secs.sel, parseMeta, hm, h2]
 
+/-! ## E. `iter_vertices` depends on the β rows and the removal flags only -/
+
+/-- programs that only read β variables -/
+inductive ReadsB {α : Type} : P Val α → Prop
+  | ret (a : α) : ReadsB (.ret a)
+  | read (i d : Nat) (k : MVal Val → P Val α) : (∀ x, ReadsB (k x)) → ReadsB (.read (.b i d) k)
+  | panic : ReadsB .panic
+
+theorem ReadsB.bind {α β : Type} {p : P Val α} {f : α → P Val β} (hp : ReadsB p)
+    (hf : ∀ a, ReadsB (f a)) : ReadsB (p.bind f) := by
+  induction hp with
+  | ret a => exact hf a
+  | read i d k _ ih => exact .read i d _ ih
+  | panic => exact .panic
+
+theorem readsB_rB (i d : Nat) : ReadsB (rB i d : P Val Nat) := .read i d _ (fun _ => .ret _)
+
+/-- same β images and same index ranges -/
+structure SameB (m m' : Map Val) : Prop where
+  β : ∀ i d, m.β i d = m'.β i d
+  ok : ∀ i d, m.okβ i d = m'.okβ i d
+
+theorem run_readsB {α : Type} {p : P Val α} (hp : ReadsB p) {m m' : Map Val} (h : SameB m m') :
+    (run p m).1 = (run p m').1 := by
+  induction hp with
+  | ret a => rfl
+  | read i d k _ ih =>
+    show (if m.okβ i d then run (k (.n (m.β i d))) m else (Out.panic, m)).1 =
+      (if m'.okβ i d then run (k (.n (m'.β i d))) m' else (Out.panic, m')).1
+    rw [h.β i d, h.ok i d]
+    split
+    · exact ih _
+    · rfl
+  | panic => rfl
+
+theorem readsB_gen2_vertex (d : Nat) : ReadsB (gen2 .vertex d : P Val (List Nat)) := by
+  unfold gen2
+  simp only [Prog.bind_eq, Prog.pure_eq]
+  refine .bind (readsB_rB _ _) fun _ => .bind (readsB_rB _ _) fun _ => .bind (readsB_rB _ _) fun _ =>
+    .bind (readsB_rB _ _) fun _ => .ret _
+
+theorem readsB_bfs {gen : Nat → P Val (List Nat)} (hg : ∀ d, ReadsB (gen d)) :
+    ∀ (fuel : Nat) (pending marked out : List Nat), ReadsB (bfs gen fuel pending marked out)
+  | 0, _, _, _ => by unfold bfs; exact .ret _
+  | _ + 1, [], _, _ => by unfold bfs; exact .ret _
+  | f + 1, d :: rest, marked, out => by
+    unfold bfs
+    simp only [Prog.bind_eq]
+    exact .bind (hg d) fun _ => readsB_bfs hg f _ _ _
+
+theorem readsB_vertexId2 (n d : Nat) : ReadsB (vertexId2 n d : P Val Nat) := by
+  unfold vertexId2 orbitWith
+  simp only [Prog.bind_eq, Prog.pure_eq]
+  exact .bind (readsB_bfs readsB_gen2_vertex _ _ _ _) fun _ => .ret _
+
+theorem iterVertices2_congr {m m' : Map Val} (hn : m'.n = m.n) (hb : SameB m m')
+    (hu : ∀ d, m'.unused d = m.unused d) : iterVertices2 m' = iterVertices2 m := by
+  unfold iterVertices2 iterCells
+  rw [hn]
+  apply List.filter_congr
+  intro d _
+  rw [hu d]
+  have := run_readsB (readsB_vertexId2 m.n d) hb
+  unfold okVal
+  rw [this]
+
+/-! ## F. auxiliary facts for the round trip -/
+
+theorem okβ_sized {m : Map Val} (h : Sized 3 m) (i d : Nat) :
+    m.okβ i d = decide (i < 3 ∧ d < m.n) := by
+  unfold Map.okβ
+  by_cases hi : i < 3
+  · simp [h.rows, hi, h.row i hi]
+  · simp [h.rows, hi]
+
+theorem β_oob {m : Map Val} (h : Sized 3 m) {i d : Nat} (ho : ¬ (i < 3 ∧ d < m.n)) : m.β i d = 0 := by
+  unfold Map.β
+  by_cases hi : i < 3
+  · have hd : ¬ d < m.n := fun x => ho ⟨hi, x⟩
+    rw [rd_oob (rd m.b i) d (by rw [h.row i hi]; omega)]; rfl
+  · rw [rd_oob m.b i (by rw [h.rows]; omega)]
+    rw [rd_oob]; rfl
+    show (#[] : Array Nat).size ≤ d
+    simp
+
+theorem unused_oob {m : Map Val} (h : Sized 3 m) {d : Nat} (ho : ¬ d < m.n) : m.unused d = false := by
+  unfold Map.unused
+  rw [rd_oob m.u d (by rw [h.usz]; omega)]; rfl
+
+theorem sameB_of_sized {m m' : Map Val} (h : Sized 3 m) (h' : Sized 3 m') (hn : m'.n = m.n)
+    (hβ : ∀ i, i < 3 → ∀ d, d < m.n → m'.β i d = m.β i d) : SameB m m' := by
+  constructor
+  · intro i d
+    by_cases hc : i < 3 ∧ d < m.n
+    · exact (hβ i hc.1 d hc.2).symm
+    · rw [β_oob h hc, β_oob h' (by rw [hn]; exact hc)]
+  · intro i d
+    rw [okβ_sized h, okβ_sized h', hn]
+
+theorem att_empty (ns n s d : Nat) : (Map.empty 3 ns n : Map Val).att s d = none := by
+  unfold Map.att
+  show rd (rd ((Array.replicate ns (Array.replicate (n + 1) none)).setIfInBounds 0
+      (Array.replicate n none)) s) d = none
+  have := rd_wr (Array.replicate ns (Array.replicate (n + 1) (none : Option Val))) 0 s
+      (Array.replicate n none)
+  unfold wr at this
+  rw [this]
+  split
+  · by_cases hd : d < n
+    · rw [rd_replicate _ _ _ hd]
+    · rw [rd_oob]; rfl
+      simp; omega
+  · by_cases hs : s < ns
+    · rw [rd_replicate _ _ _ hs]
+      by_cases hd : d < n + 1
+      · rw [rd_replicate _ _ _ hd]
+      · rw [rd_oob]; rfl
+        simp; omega
+    · rw [rd_oob (Array.replicate ns (Array.replicate (n + 1) (none : Option Val))) s (by simp; omega)]
+      rw [rd_oob]; rfl
+      show (#[] : Array (Option Val)).size ≤ d
+      simp
+
+theorem size_a_empty (ns n : Nat) : (Map.empty 3 ns n : Map Val).a.size = ns := by
+  simp [Map.empty]
+
+theorem length_betaLine (m : Map Val) (i : Nat) : (betaLine m i).length = m.n := by
+  simp [betaLine]
+
+theorem drop_betaLine (m : Map Val) (i : Nat) :
+    (betaLine m i).drop 1 = (List.range' 1 (m.n - 1)).map (fun d => natTok (m.β i d)) := by
+  unfold betaLine
+  rw [← List.map_drop, List.range_eq_range', List.drop_range']
+
+theorem mem_iterVertices2_lt {m : Map Val} {v : Nat} (h : v ∈ iterVertices2 m) : v < m.n := by
+  unfold iterVertices2 iterCells at h
+  exact List.mem_range.mp (List.mem_filter.mp h).1
+
+theorem nodup_iterVertices2 (m : Map Val) : (iterVertices2 m).Nodup := by
+  unfold iterVertices2 iterCells
+  exact List.Nodup.sublist List.filter_sublist List.nodup_range
+
+theorem filterMap_congr' {α β : Type} {f g : α → Option β} : ∀ (l : List α),
+    (∀ a ∈ l, f a = g a) → l.filterMap f = l.filterMap g
+  | [], _ => rfl
+  | a :: l, h => by
+    rw [List.filterMap_cons, List.filterMap_cons, h a (by simp),
+      filterMap_congr' l (fun b hb => h b (by simp [hb]))]
+
+/-- `build` from the results of its three loops -/
+theorem build_of_stages {ns : Nat} {cf : CFile} {l0 l1 l2 : Line} {m1 m2 m3 : Map Val}
+    (hd : cf.dim = 2) (hb : cf.betas = [l0, l1, l2]) (h0 : l0.length = cf.nd + 1)
+    (h1 : l1.length = cf.nd + 1) (h2 : l2.length = cf.nd + 1)
+    (r1 : betasLoop 1 (l0.drop 1) (l1.drop 1) (l2.drop 1) (Map.empty 3 ns (cf.nd + 1)) = .ok m1)
+    (r2 : unusedLoop ((cf.unused.getD []).flatten) m1 = .ok m2)
+    (r3 : verticesLoop (cf.vertices.getD []) m2 = .ok m3) : build ns cf = .ok m3 := by
+  unfold build
+  rw [if_neg (by rw [hd]; exact fun h => h rfl)]
+  simp only [hb]
+  rw [if_neg (by rw [h0]; exact fun h => h rfl), if_neg (by rw [h1]; exact fun h => h rfl),
+    if_neg (by rw [h2]; exact fun h => h rfl)]
+  simp only [r1, r2, r3]
+
+
+/-! ## G. facts used by the validator soundness (C10) -/
+
+theorem drop1_eq_map (l : List String) :
+    l.drop 1 = (List.range' 1 (l.length - 1)).map (fun e => l.getD e "") := by
+  apply List.ext_getElem
+  · simp
+  · intro k h1 h2
+    simp only [List.getElem_drop, List.getElem_map, List.getElem_range']
+    have hk : 1 + k < l.length := by simp at h1; omega
+    simp [List.getD_eq_getElem?_getD, hk]
+
+theorem verticesLoop_succeeds : ∀ (ls : List Line) (m : Map Val), Sized 3 m → 0 < m.a.size →
+    (∀ l ∈ ls, ∃ tid tx ty id x y, l = [tid, tx, ty] ∧ parseU32 tid = some id ∧
+      parseCoord tx = some x ∧ parseCoord ty = some y ∧ id < m.n) →
+    ∃ m', verticesLoop ls m = .ok m' := by
+  intro ls
+  induction ls with
+  | nil => intro m _ _ _; exact ⟨m, by simp [verticesLoop]⟩
+  | cons l ls ih =>
+    intro m hs h0 hall
+    obtain ⟨tid, tx, ty, id, x, y, rfl, p1, p2, p3, hid⟩ := hall l (by simp)
+    have hstep := vertexStep_ok hs h0 hid p1 p2 p3
+    obtain ⟨m', hm'⟩ := ih (m.setA 0 id (some (.pt x y 0))) (sized_setA hs _ _ _)
+      (by rw [size_a_setA]; exact h0) (fun l' hl' => hall l' (by simp [hl']))
+    exact ⟨m', by simp only [verticesLoop, hstep]; exact hm'⟩
+
 end CmapText
 end HC
